@@ -2,6 +2,7 @@
 // memcache_server/handler.rs and the request/response types, under contract (sequential prelude).
 #![allow(unused_imports, dead_code, unused_variables, unused_mut, unused_assignments, non_snake_case, non_upper_case_globals)]
 use vstd::prelude::*;
+use vstd::string::*;
 verus! {
 
 //@include prelude_std.rs
@@ -52,7 +53,7 @@ impl Record {
 impl CacheError {
 //@fn cache/error.rs | impl CacheError | to_static_string | ret=r | safety=C10
     ensures
-        r@ == error_text(*self), // @ob C11 error.text_table
+        r == error_str(*self), // @ob C11 error.text_table
 //@endfn
 }
 
@@ -71,18 +72,18 @@ pub trait CacheImplDetails {
     fn get_by_key(&mut self, key: &KeyType) -> (r: Result<Record>)
         requires old(self).inv(),
         ensures
-            final(self).inv() && final(self).cview() == old(self).cview() && final(self).now() == old(self).now() && final(self).cas_next() == old(self).cas_next(),
-            r is Ok <==> old(self).cview().contains_key(key@),
-            r is Ok ==> same_item(item_of(r->Ok_0), old(self).cview()[key@]) && r->Ok_0.header.timestamp <= old(self).now(),
-            r is Err ==> r->Err_0 == CacheError::NotFound;
+            final(self).inv() && final(self).cview() == old(self).cview() && final(self).now() == old(self).now() && final(self).cas_next() == old(self).cas_next(), // @ob C01 get_by_key.frame
+            r is Ok <==> old(self).cview().contains_key(key@), // @ob C01 get_by_key.present_iff
+            r is Ok ==> same_item(item_of(r->Ok_0), old(self).cview()[key@]) && r->Ok_0.header.timestamp <= old(self).now(), // @ob C01,C02 get_by_key.returns_stored
+            r is Err ==> r->Err_0 == CacheError::NotFound; // @ob C01 get_by_key.not_found
 
     fn check_if_expired(&mut self, key: &KeyType, record: &Record) -> (r: bool)
         requires old(self).inv(), record.header.timestamp <= old(self).now(),
         ensures
-            final(self).inv() && final(self).now() == old(self).now() && final(self).cas_next() == old(self).cas_next(),
-            r == !live(item_of(*record), old(self).now()),
-            r ==> final(self).cview() =~= old(self).cview().remove(key@),
-            !r ==> final(self).cview() == old(self).cview();
+            final(self).inv() && final(self).now() == old(self).now() && final(self).cas_next() == old(self).cas_next(), // @ob C05 check_if_expired.frame
+            r == !live(item_of(*record), old(self).now()), // @ob C05 check_if_expired.exact
+            r ==> final(self).cview() =~= old(self).cview().remove(key@), // @ob C05 check_if_expired.collects
+            !r ==> final(self).cview() == old(self).cview(); // @ob C05,C01 check_if_expired.keeps_live
 }
 
 pub open spec fn post_get(v0: CView, now: u64, k: Seq<u8>, r: Result<Record>, v1: CView) -> bool {
@@ -172,7 +173,7 @@ impl MemoryStore {
     ensures
         ms_inv(*final(self)) && final(self).timer == old(self).timer, // @ob C01 store.set.inv
         post_set(old(self).memory@, old(self).cas_id.val(), old(self).timer.now(), key@, record.value@, record.header.flags, record.header.time_to_live, record.header.cas,
-                 r is Ok, r is Err && r->Err_0 == CacheError::KeyExists, if r is Ok { r->Ok_0.cas } else { 0 }, final(self).memory@, final(self).cas_id.val()), // @ob C01,C02,C05 store.set.post_set
+                 r is Ok, r is Err && r->Err_0 == CacheError::KeyExists, r is Err && r->Err_0 == CacheError::NotFound, if r is Ok { r->Ok_0.cas } else { 0 }, final(self).memory@, final(self).cas_id.val()), // @ob C01,C02,C05 store.set.post_set
 //@endfn
 
 //@fn memory_store/store.rs | impl Cache for MemoryStore | delete | ret=r | mutself | safety=C10 | assumed=kani:store_delete
@@ -191,9 +192,9 @@ impl MemoryStore {
         ms_inv(*final(self)) && final(self).timer == old(self).timer && final(self).cas_id == old(self).cas_id, // @ob C08 store.flush.frame
         post_flush(old(self).memory@, old(self).timer.now(), header.time_to_live, final(self).memory@), // @ob C05,C08 store.flush.post_flush
 //@closure 0 | |_key: &KeyType, mut value: Record| -> (w: Record)
-                ensures w.value@ == value.value@ && w.header.flags == value.header.flags && w.header.cas == value.header.cas && w.header.timestamp == value.header.timestamp,
-                        w.header.time_to_live != 0 && w.header.time_to_live <= header.time_to_live,
-                        value.header.time_to_live != 0 ==> w.header.time_to_live <= value.header.time_to_live,
+                ensures w.value@ == value.value@ && w.header.flags == value.header.flags && w.header.cas == value.header.cas && w.header.timestamp == value.header.timestamp, // @ob C08 store.flush.closure_keeps_item
+                        w.header.time_to_live != 0 && w.header.time_to_live <= header.time_to_live, // @ob C08 store.flush.closure_deadline
+                        value.header.time_to_live != 0 ==> w.header.time_to_live <= value.header.time_to_live, // @ob C05 store.flush.closure_never_prolongs
 //@endfn
 
 //@fn memory_store/store.rs | impl Cache for MemoryStore | len | ret=r | safety=C10
@@ -208,6 +209,386 @@ impl MemoryStore {
 }
 //@closed memory_store/store.rs | impl Cache for MemoryStore | allow=as_read_only,remove_if
 //@closed memory_store/store.rs | impl impl_details::CacheImplDetails for MemoryStore
+
+// ---- memcache/store.rs ---------------------------------------------------------------------------
+pub mod store {
+    use vstd::prelude::*;
+    use super::*;
+    // R7: the `use ... as ...` lines of memcache/store.rs
+    use super::{CacheMetaData as CacheMeta, KeyType as CacheKeyType, Record as CacheRecord, SetStatus as CacheSetStatus};
+//@items memcache/store.rs | type Record, type Meta, type SetStatus, type KeyType, struct DeltaParam, type IncrementParam, type DecrementParam, type DeltaResultValueType, struct DeltaResult
+
+//@fields memcache/store.rs | struct MemcStore | store
+    pub struct MemcStore {
+        pub store: MemoryStore,   // R4: Arc<dyn Cache + Send + Sync>, instantiated as builder.rs does for policy None
+    }
+
+    // C06: add
+    pub open spec fn post_add(v0: CView, cas0: u64, now: u64, k: Seq<u8>, rec: Record, r: Result<SetStatus>, v1: CView, cas1: u64) -> bool {
+        match lookup(v0, now, k) {
+            Some(i) => r is Err && r->Err_0 == CacheError::KeyExists && v1 == v0 && cas1 == cas0,
+            None => post_set(v0.remove(k), cas0, now, k, rec.value@, rec.header.flags, rec.header.time_to_live, rec.header.cas,
+                             r is Ok, r is Err && r->Err_0 == CacheError::KeyExists, r is Err && r->Err_0 == CacheError::NotFound, if r is Ok { r->Ok_0.cas } else { 0 }, v1, cas1),
+        }
+    }
+    // C06: replace
+    pub open spec fn post_replace(v0: CView, cas0: u64, now: u64, k: Seq<u8>, rec: Record, r: Result<SetStatus>, v1: CView, cas1: u64) -> bool {
+        match lookup(v0, now, k) {
+            Some(i) => post_set(v0, cas0, now, k, rec.value@, rec.header.flags, rec.header.time_to_live, rec.header.cas,
+                             r is Ok, r is Err && r->Err_0 == CacheError::KeyExists, r is Err && r->Err_0 == CacheError::NotFound, if r is Ok { r->Ok_0.cas } else { 0 }, v1, cas1),
+            None => r is Err && r->Err_0 == CacheError::NotFound && v1 =~= v0.remove(k) && cas1 == cas0,
+        }
+    }
+    // C06: append (front == false: old ++ new) / prepend (front == true: new ++ old); flags and ttl of the item are kept
+    pub open spec fn post_concat(front: bool, v0: CView, cas0: u64, now: u64, k: Seq<u8>, rec: Record, r: Result<SetStatus>, v1: CView, cas1: u64) -> bool {
+        match lookup(v0, now, k) {
+            Some(i) => post_set(v0, cas0, now, k, if front { rec.value@ + i.value } else { i.value + rec.value@ }, i.flags, i.ttl, rec.header.cas,
+                             r is Ok, r is Err && r->Err_0 == CacheError::KeyExists, r is Err && r->Err_0 == CacheError::NotFound, if r is Ok { r->Ok_0.cas } else { 0 }, v1, cas1),
+            None => r is Err && r->Err_0 == CacheError::NotFound && v1 =~= v0.remove(k) && cas1 == cas0,
+        }
+    }
+
+
+    // C07: incr / decr.  Result decomposed: ok, err (meaningful when !ok), acked CAS and value (meaningful when ok)
+    pub open spec fn post_delta(incr: bool, v0: CView, cas0: u64, now: u64, k: Seq<u8>, delta: u64, initial: u64, hdr: Meta,
+                                ok: bool, err: CacheError, acked: u64, value: u64, v1: CView, cas1: u64) -> bool {
+        match lookup(v0, now, k) {
+            Some(i) => {
+                if numeric_u64(i.value) {
+                    let nv = delta_apply(incr, dec_val(i.value) as u64, delta);
+                    // stored and returned: the new value as decimal text; the item keeps its flags (C07) and its ttl (C05)
+                    &&& post_set(v0, cas0, now, k, dec_text(nv as nat), i.flags, i.ttl, hdr.cas,
+                                 ok, !ok && err == CacheError::KeyExists, !ok && err == CacheError::NotFound, acked, v1, cas1)
+                    &&& (ok ==> value == nv)
+                } else if plus_numeric(i.value) {
+                    true
+                } else {
+                    !ok && err == CacheError::ArithOnNonNumeric && v1 == v0 && cas1 == cas0
+                }
+            },
+            None => {
+                if hdr.time_to_live != 0xffff_ffffu32 {
+                    &&& post_set(v0.remove(k), cas0, now, k, dec_text(initial as nat), 0, hdr.time_to_live, 0,
+                                 ok, !ok && err == CacheError::KeyExists, !ok && err == CacheError::NotFound, acked, v1, cas1)
+                    &&& (ok ==> value == initial)
+                } else {
+                    !ok && err == CacheError::NotFound && v1 =~= v0.remove(k) && cas1 == cas0
+                }
+            },
+        }
+    }
+    pub open spec fn dr_ok(r: Result<DeltaResult>) -> bool { r is Ok }
+    pub open spec fn dr_err(r: Result<DeltaResult>) -> CacheError { if r is Err { r->Err_0 } else { CacheError::NotFound } }
+    pub open spec fn dr_cas(r: Result<DeltaResult>) -> u64 { if r is Ok { r->Ok_0.cas } else { 0 } }
+    pub open spec fn dr_val(r: Result<DeltaResult>) -> u64 { if r is Ok { r->Ok_0.value } else { 0 } }
+
+    pub open spec fn mc_inv(s: MemcStore) -> bool { ms_inv(s.store) }
+    pub open spec fn mc_room(s: MemcStore) -> bool { cas_room(s.store.cas_id.val()) }
+    pub open spec fn mc_now(s: MemcStore) -> u64 { s.store.timer.now() }
+    pub open spec fn mc_frame(a: MemcStore, b: MemcStore) -> bool { mc_inv(b) && b.store.timer.now() == a.store.timer.now() }
+    pub open spec fn mc_cas(s: MemcStore) -> u64 { s.store.cas_id.val() }
+
+    impl MemcStore {
+//@fn memcache/store.rs | impl MemcStore | new | ret=r | safety=C10 | sigsub=Arc<dyn Cache + Send + Sync>=>MemoryStore
+        ensures
+            r.store == store, // @ob C01 memc.new.wraps
+//@endfn
+
+//@fn memcache/store.rs | impl MemcStore | set | ret=r | mutself | safety=C10
+        requires
+            mc_inv(*old(self)), mc_room(*old(self)),
+        ensures
+            mc_frame(*old(self), *final(self)), // @ob C01 memc.set.frame
+            post_set(old(self).store.memory@, old(self).store.cas_id.val(), mc_now(*old(self)), key@, record.value@, record.header.flags, record.header.time_to_live, record.header.cas,
+                     r is Ok, r is Err && r->Err_0 == CacheError::KeyExists, r is Err && r->Err_0 == CacheError::NotFound, if r is Ok { r->Ok_0.cas } else { 0 }, final(self).store.memory@, final(self).store.cas_id.val()), // @ob C01,C02,C05 memc.set.post_set
+//@endfn
+
+//@fn memcache/store.rs | impl MemcStore | get | ret=r | mutself | safety=C10
+        requires
+            mc_inv(*old(self)),
+        ensures
+            mc_frame(*old(self), *final(self)) && mc_cas(*final(self)) == mc_cas(*old(self)), // @ob C01 memc.get.frame
+            post_get(old(self).store.memory@, mc_now(*old(self)), key@, r, final(self).store.memory@), // @ob C01,C05 memc.get.lookup_exact
+//@endfn
+
+//@fn memcache/store.rs | impl MemcStore | add | ret=r | mutself | safety=C10,C06
+        requires
+            mc_inv(*old(self)), mc_room(*old(self)),
+        ensures
+            mc_frame(*old(self), *final(self)), // @ob C06 memc.add.frame
+            post_add(old(self).store.memory@, old(self).store.cas_id.val(), mc_now(*old(self)), key@, record, r, final(self).store.memory@, final(self).store.cas_id.val()), // @ob C06,C05 memc.add.post_add
+//@endfn
+
+//@fn memcache/store.rs | impl MemcStore | replace | ret=r | mutself | safety=C10,C06
+        requires
+            mc_inv(*old(self)), mc_room(*old(self)),
+        ensures
+            mc_frame(*old(self), *final(self)), // @ob C06 memc.replace.frame
+            post_replace(old(self).store.memory@, old(self).store.cas_id.val(), mc_now(*old(self)), key@, record, r, final(self).store.memory@, final(self).store.cas_id.val()), // @ob C06,C05,C02 memc.replace.post_replace
+//@endfn
+
+//@fn memcache/store.rs | impl MemcStore | append | ret=r | mutself | safety=C10,C06
+        requires
+            mc_inv(*old(self)), mc_room(*old(self)),
+        ensures
+            mc_frame(*old(self), *final(self)), // @ob C06 memc.append.frame
+            post_concat(false, old(self).store.memory@, old(self).store.cas_id.val(), mc_now(*old(self)), key@, new_record, r, final(self).store.memory@, final(self).store.cas_id.val()), // @ob C06,C05,C02 memc.append.post_concat
+//@endfn
+
+//@fn memcache/store.rs | impl MemcStore | prepend | ret=r | mutself | safety=C10,C06
+        requires
+            mc_inv(*old(self)), mc_room(*old(self)),
+        ensures
+            mc_frame(*old(self), *final(self)), // @ob C06 memc.prepend.frame
+            post_concat(true, old(self).store.memory@, old(self).store.cas_id.val(), mc_now(*old(self)), key@, new_record, r, final(self).store.memory@, final(self).store.cas_id.val()), // @ob C06,C05,C02 memc.prepend.post_concat
+//@endfn
+
+
+//@fn memcache/store.rs | impl MemcStore | increment | ret=r | mutself | safety=C10,C07
+        requires
+            mc_inv(*old(self)), mc_room(*old(self)),
+        ensures
+            mc_frame(*old(self), *final(self)), // @ob C07 memc.increment.frame
+            post_delta(true, old(self).store.memory@, mc_cas(*old(self)), mc_now(*old(self)), key@, increment.delta, increment.value, header, dr_ok(r), dr_err(r), dr_cas(r), dr_val(r), final(self).store.memory@, mc_cas(*final(self))), // @ob C07,C05,C02 memc.increment.post_delta
+//@endfn
+
+//@fn memcache/store.rs | impl MemcStore | decrement | ret=r | mutself | safety=C10,C07
+        requires
+            mc_inv(*old(self)), mc_room(*old(self)),
+        ensures
+            mc_frame(*old(self), *final(self)), // @ob C07 memc.decrement.frame
+            post_delta(false, old(self).store.memory@, mc_cas(*old(self)), mc_now(*old(self)), key@, decrement.delta, decrement.value, header, dr_ok(r), dr_err(r), dr_cas(r), dr_val(r), final(self).store.memory@, mc_cas(*final(self))), // @ob C07,C05,C02 memc.decrement.post_delta
+//@endfn
+
+        // add_delta: closures capturing `&mut` state - outside Verus; its contract is ASSUMED here and checked by the Kani harnesses memc_add_delta_*
+//@fn memcache/store.rs | impl MemcStore | add_delta | ret=r | mutself | safety=C10 | assumed=kani:memc_add_delta
+        requires
+            mc_inv(*old(self)), mc_room(*old(self)),
+        ensures
+            mc_frame(*old(self), *final(self)),
+            post_delta(increment, old(self).store.memory@, mc_cas(*old(self)), mc_now(*old(self)), key@, delta.delta, delta.value, header, dr_ok(r), dr_err(r), dr_cas(r), dr_val(r), final(self).store.memory@, mc_cas(*final(self))),
+//@endfn
+
+//@fn memcache/store.rs | impl MemcStore | delete | ret=r | mutself | safety=C10,C08
+        requires
+            mc_inv(*old(self)),
+        ensures
+            mc_frame(*old(self), *final(self)) && mc_cas(*final(self)) == mc_cas(*old(self)), // @ob C08 memc.delete.frame
+            post_delete(old(self).store.memory@, key@, header.cas, r is Ok, r is Err && r->Err_0 == CacheError::NotFound, r is Err && r->Err_0 == CacheError::KeyExists, final(self).store.memory@), // @ob C08,C02 memc.delete.post_delete
+//@endfn
+
+//@fn memcache/store.rs | impl MemcStore | flush | mutself | safety=C10,C08
+        requires
+            mc_inv(*old(self)),
+        ensures
+            mc_frame(*old(self), *final(self)) && mc_cas(*final(self)) == mc_cas(*old(self)), // @ob C08 memc.flush.frame
+            post_flush(old(self).store.memory@, mc_now(*old(self)), header.time_to_live, final(self).store.memory@), // @ob C05,C08 memc.flush.post_flush
+//@endfn
+    }
+//@closed memcache/store.rs | impl MemcStore
+}
+
+// ---- protocol/binary.rs, request/response enums of protocol/binary_codec.rs ------------------------
+pub mod binary {
+    use vstd::prelude::*;
+    use super::Bytes;
+//@items protocol/binary.rs | struct RequestHeader, struct ResponseHeader | dropderive=Default
+    // R5: derive(Default) on the two header structs is replaced by these stand-ins with the meaning of the derive (ASSUMED)
+    impl Default for RequestHeader {
+        #[verifier::external_body]
+        fn default() -> (r: RequestHeader)
+            ensures r == (RequestHeader { magic: 0, opcode: 0, key_length: 0, extras_length: 0, data_type: 0, vbucket_id: 0, body_length: 0, opaque: 0, cas: 0 })
+        { unimplemented!() }
+    }
+    impl Default for ResponseHeader {
+        #[verifier::external_body]
+        fn default() -> (r: ResponseHeader)
+            ensures r == (ResponseHeader { magic: 0, opcode: 0, key_length: 0, extras_length: 0, data_type: 0, status: 0, body_length: 0, opaque: 0, cas: 0 })
+        { unimplemented!() }
+    }
+//@items protocol/binary.rs | enum Magic, enum ResponseStatus, enum DataTypes, enum Command, struct Request, struct Response, struct VersionResponse, struct ErrorResponse, struct GetRequest, struct GetResponse, struct SetRequest, struct AppendRequest, struct IncrementRequest, struct IncrementResponse, struct TouchRequest, struct FlushRequest, struct StatsResponse, type *
+
+    impl ResponseHeader {
+//@fn protocol/binary.rs | impl ResponseHeader | new | ret=r | safety=C10
+        ensures
+            r == (ResponseHeader { magic: 0x81, opcode: cmd, key_length: 0, extras_length: 0, data_type: 0, status: 0, body_length: 0, opaque, cas: 0 }), // @ob C11 response_header.new.fields
+//@endfn
+    }
+}
+
+// R6/R7: `pub static MEMCRS_VERSION: &str = crate_version!();` (clap macro = CARGO_PKG_VERSION); contracts never look at the text
+pub const MEMCRS_VERSION: &'static str = "0.0.1";
+// ASSUMED: the crate version string is short (it is CARGO_PKG_VERSION)
+#[verifier::external_body]
+pub proof fn axiom_version_short()
+    ensures MEMCRS_VERSION.spec_bytes().len() <= 64
+{ }
+
+pub mod binary_codec {
+    use vstd::prelude::*;
+    use super::*;
+//@items protocol/binary_codec.rs | enum BinaryRequest, enum BinaryResponse
+
+    impl BinaryRequest {
+//@fn protocol/binary_codec.rs | impl BinaryRequest | get_header | ret=r | safety=C10
+        ensures
+            *r == req_view(*self).header, // @ob C11 request.get_header.exact
+//@endfn
+    }
+    impl BinaryResponse {
+//@fn protocol/binary_codec.rs | impl BinaryResponse | get_header | ret=r | safety=C10
+        ensures
+            *r == resp_header(*self), // @ob C11 response.get_header.exact
+//@endfn
+    }
+
+//@fn protocol/binary_codec.rs | - | storage_error_to_response | ret=r | safety=C10,C11
+        ensures
+            err_resp(r, *old(response_header), err), // @ob C11,C19 storage_error_to_response.table
+            *final(response_header) == resp_header(r), // @ob C11 storage_error_to_response.header_out
+//@proof 0 | response_header.status = err as u16;
+    proof { lemma_error_text_short(err); }
+//@endfn
+}
+use binary_codec::{BinaryRequest, BinaryResponse};
+
+//@include wire.rs
+//@include model_handler.rs
+
+// ---- memcache_server/handler.rs ---------------------------------------------------------------------
+pub mod handler {
+    use vstd::prelude::*;
+    use super::*;
+    use super::binary_codec::storage_error_to_response;
+
+//@items memcache_server/handler.rs | const EXTRAS_LENGTH
+
+//@fn memcache_server/handler.rs | - | into_record_meta | ret=r | safety=C10
+        ensures
+            r.cas == request_header.cas && r.flags == request_header.opaque && r.time_to_live == expiration && r.timestamp == 0, // @ob C02,C07,C08 into_record_meta.fields
+//@endfn
+
+//@fn memcache_server/handler.rs | - | into_quiet_get | ret=r | safety=C10,C12
+        ensures
+            r == (if response is Error && resp_header(response).status == 0x01 { None::<binary_codec::BinaryResponse> } else { Some(response) }) && is_resp(response), // @ob C12,C19 into_quiet_get.exact
+//@endfn
+
+//@fn memcache_server/handler.rs | - | into_quiet_mutation | ret=r | safety=C10,C12
+        ensures
+            r == (if response is Error { Some(response) } else { None::<binary_codec::BinaryResponse> }) && is_resp(response), // @ob C12,C19 into_quiet_mutation.exact
+//@endfn
+
+//@fields memcache_server/handler.rs | struct BinaryHandler | storage
+    pub struct BinaryHandler {
+        pub storage: store::MemcStore,     // R4: Arc<store::MemcStore>
+    }
+
+    impl BinaryHandler {
+//@fn memcache_server/handler.rs | impl BinaryHandler | new | ret=r | safety=C10 | sigsub=Arc<store::MemcStore>=>store::MemcStore
+        ensures
+            r.storage == store, // @ob C01 handler.new.wraps
+//@endfn
+
+//@fn memcache_server/handler.rs | impl BinaryHandler | handle_request | ret=r | mutself | safety=C10,C11,C12
+        requires
+            h_pre(old(self).storage), req_wf(req_view(req)),
+        ensures
+            store::mc_frame(old(self).storage, final(self).storage), // @ob C01 handle_request.frame
+            r is Some ==> is_resp(r->Some_0),
+            handle_post(req_view(req), old(self).storage, final(self).storage, r), // @ob C01,C02,C05,C06,C07,C08,C11,C12,C13,C19 handle_request.handle_post
+//@proof 0 | response_header.body_length = MEMCRS_VERSION.len() as u32;
+                proof { axiom_version_short(); }
+//@endfn
+
+//@fn memcache_server/handler.rs | impl BinaryHandler | add_replace | ret=r | mutself | safety=C10,C06
+        requires
+            h_pre(old(self).storage),
+        ensures
+            store::mc_frame(old(self).storage, final(self).storage), // @ob C06 handler.add_replace.frame
+            *final(response_header) == resp_header(r), // @ob C11 handler.add_replace.header_out
+            loud_post(if request.header.opcode == 0x02 || request.header.opcode == 0x12 { Base::Add } else { Base::Replace }, payload(rv_set(RK::Set, request)), *old(response_header), old(self).storage, final(self).storage, r), // @ob C06,C02,C11,C19 handler.add_replace.loud_post
+//@endfn
+
+//@fn memcache_server/handler.rs | impl BinaryHandler | is_add_command | ret=r | safety=C10
+        ensures
+            r == (opcode == 0x02 || opcode == 0x12), // @ob C06 handler.is_add_command.exact
+//@endfn
+
+//@fn memcache_server/handler.rs | impl BinaryHandler | append_prepend | ret=r | mutself | safety=C10,C06
+        requires
+            h_pre(old(self).storage),
+        ensures
+            store::mc_frame(old(self).storage, final(self).storage), // @ob C06 handler.append_prepend.frame
+            *final(response_header) == resp_header(r), // @ob C11 handler.append_prepend.header_out
+            loud_post(if append_req.header.opcode == 0x0e || append_req.header.opcode == 0x19 { Base::Append } else { Base::Prepend }, payload(rv_app(RK::Append, append_req)), *old(response_header), old(self).storage, final(self).storage, r), // @ob C06,C02,C11,C19 handler.append_prepend.loud_post
+//@endfn
+
+//@fn memcache_server/handler.rs | impl BinaryHandler | is_append | ret=r | safety=C10
+        ensures
+            r == (opcode == 0x0e || opcode == 0x19), // @ob C06 handler.is_append.exact
+//@endfn
+
+//@fn memcache_server/handler.rs | impl BinaryHandler | set | ret=r | mutself | safety=C10,C01
+        requires
+            h_pre(old(self).storage),
+        ensures
+            store::mc_frame(old(self).storage, final(self).storage), // @ob C01 handler.set.frame
+            *final(response_header) == resp_header(r), // @ob C11 handler.set.header_out
+            loud_post(Base::Set, payload(rv_set(RK::Set, set_req)), *old(response_header), old(self).storage, final(self).storage, r), // @ob C01,C02,C11,C19 handler.set.loud_post
+//@endfn
+
+//@fn memcache_server/handler.rs | impl BinaryHandler | delete | ret=r | mutself | safety=C10,C08
+        requires
+            h_pre(old(self).storage),
+        ensures
+            store::mc_frame(old(self).storage, final(self).storage), // @ob C08 handler.delete.frame
+            *final(response_header) == resp_header(r), // @ob C11 handler.delete.header_out
+            loud_post(Base::Delete, payload(rv_key(RK::Delete, delete_request)), *old(response_header), old(self).storage, final(self).storage, r), // @ob C08,C02,C11,C19 handler.delete.loud_post
+//@endfn
+
+//@fn memcache_server/handler.rs | impl BinaryHandler | get | ret=r | mutself | safety=C10,C01,C11
+        requires
+            h_pre(old(self).storage), get_request.key@.len() <= 250,
+        ensures
+            store::mc_frame(old(self).storage, final(self).storage), // @ob C01 handler.get.frame
+            *final(response_header) == resp_header(r), // @ob C11 handler.get.header_out
+            loud_post(if get_request.header.opcode == 0x0c || get_request.header.opcode == 0x0d { Base::GetKey } else { Base::Get }, payload(rv_key(RK::Get, get_request)), *old(response_header), old(self).storage, final(self).storage, r), // @ob C01,C02,C05,C11,C19 handler.get.loud_post
+//@endfn
+
+//@fn memcache_server/handler.rs | impl BinaryHandler | is_get_key_command | ret=r | safety=C10
+        ensures
+            r == (opcode == 0x0c || opcode == 0x0d), // @ob C11 handler.is_get_key_command.exact
+//@endfn
+
+//@fn memcache_server/handler.rs | impl BinaryHandler | flush | ret=r | mutself | safety=C10,C08
+        requires
+            h_pre(old(self).storage),
+        ensures
+            store::mc_frame(old(self).storage, final(self).storage), // @ob C08 handler.flush.frame
+            *final(response_header) == resp_header(r), // @ob C11 handler.flush.header_out
+            loud_post(Base::Flush, payload(rv_flush(RK::Flush, flush_request)), *old(response_header), old(self).storage, final(self).storage, r), // @ob C08,C05,C11,C19 handler.flush.loud_post
+//@endfn
+
+//@fn memcache_server/handler.rs | impl BinaryHandler | increment | ret=r | mutself | safety=C10,C07
+        requires
+            h_pre(old(self).storage),
+        ensures
+            store::mc_frame(old(self).storage, final(self).storage), // @ob C07 handler.increment.frame
+            *final(response_header) == resp_header(r), // @ob C11 handler.increment.header_out
+            loud_post(Base::Incr, payload(rv_inc(RK::Increment, inc_request)), *old(response_header), old(self).storage, final(self).storage, r), // @ob C07,C02,C11,C19 handler.increment.loud_post
+//@endfn
+
+//@fn memcache_server/handler.rs | impl BinaryHandler | decrement | ret=r | mutself | safety=C10,C07
+        requires
+            h_pre(old(self).storage),
+        ensures
+            store::mc_frame(old(self).storage, final(self).storage), // @ob C07 handler.decrement.frame
+            *final(response_header) == resp_header(r), // @ob C11 handler.decrement.header_out
+            loud_post(Base::Decr, payload(rv_inc(RK::Decrement, dec_request)), *old(response_header), old(self).storage, final(self).storage, r), // @ob C07,C02,C11,C19 handler.decrement.loud_post
+//@endfn
+    }
+//@closed memcache_server/handler.rs | impl BinaryHandler
+}
 
 } // verus!
 fn main() {}
